@@ -112,22 +112,7 @@ def run(ctx, chk):
     if drv is None:
         chk.undecided_("C16.R3", "CMDDriver::run", "driver not found")
     else:
-        for bi, t in M.calls_in(drv):
-            if not (t[1].get("def") or "").endswith("get_err_pos"):
-                continue
-            arg = t[2][1]
-            chain = trace_value(drv, bi, arg)
-            line = drv["blocks"][bi]["term"]["line"]
-            unit = f"get_err_pos@bb{bi}"
-            arith = [c for c in chain if c[0] == "rvalue" and c[1][0] == "bin"]
-            src_call = [c for c in chain if c[0] == "call"]
-            if arith:
-                rv = arith[0][1]
-                const = [o[1].get("val") for o in rv[2:] if o[0] == "const"]
-                chk.violation("C16.R3", "CMDDriver::run", f"position-arithmetic:{rv[1]}{const}",
-                              f"a message position is computed as source-map entry {rv[1].rstrip('O')} {const}: for an instruction shorter than that the next line is cited", f"src/driver/driver.rs:{line}")
-            else:
-                chk.ok("C16.R3", unit, "position passed unmodified: " + " <- ".join(c[0] for c in chain))
+        driver_message_positions(ctx, chk, drv)
     # R4 preprocess
     pp = ctx.program.by_name.get(("bin", "driver::preprocess::preprocess"))
     if pp is None:
@@ -244,3 +229,86 @@ def diagnostic_positions(ctx, chk, GA, E):
                         chk.violation("C16.R6", label, f"diagnostic-{which}-not-own-location",
                                       f"{label}: error!({e.start}, {e.end}, ..) - the {which} position is not a location of this production (it is bound somewhere else, e.g. "
                                       f"by a pattern on the error of a nested parse, whose positions are offsets into the expanded macro text): the diagnostic cites an unrelated line", where)
+
+
+def driver_message_positions(ctx, chk, drv):
+    """C16.R3 on terms: every message of the execution loop that cites a source line gets it from
+    get_err_pos(lh, *source_map.get(&idx).unwrap()) with idx the index of the instruction being executed and the
+    position handed on unmodified -- whether the lookup is written in place, in a closure or in a helper."""
+    from driver_rules import LoopModel, local_closure, has_unknown
+    from symterm import SymFlow, subterms, strip, show
+    P = ctx.program
+    L = LoopModel(ctx, drv)
+    if not L.ok:
+        chk.undecided_("C16.R3", "CMDDriver::run", L.why or "loop not recognised")
+        return
+    F = L.F
+    entry, _, _ = F.run(L.head, stop={L.head})
+
+    def lookup_of(term):
+        """(key term, arithmetic?) if term is the (unwrapped, dereferenced) payload of a map lookup, possibly modified"""
+        gets = [x for x in subterms(term) if x[0] == "call" and x[1].endswith("::get") and "HashMap" in x[1] and len(x[2]) >= 2]
+        arith = [x for x in subterms(term) if x[0] in ("bin", "binO") and any(y in gets for y in subterms(x))]
+        return (strip(gets[0][2][1]) if gets else None), bool(arith), arith
+
+    def judge(unit, pos_term, key_is, where):
+        key, arith, ar = lookup_of(pos_term)
+        if key is None:
+            chk.undecided_("C16.R3", unit, f"position not recognised as a source-map entry: {show(pos_term)[:80]}")
+        elif arith:
+            op = ar[0][1]
+            const = [x[1] for x in ar[0][2:] if isinstance(x, tuple) and x[0] == "const"]
+            chk.violation("C16.R3", "CMDDriver::run", f"position-arithmetic:{op}O{const}" if not str(op).endswith("O") else f"position-arithmetic:{op}{const}",
+                          f"a message position is computed as source-map entry {op} {const}: for an instruction shorter than that the next line is cited", where)
+        elif key != key_is:
+            if has_unknown(key):
+                chk.undecided_("C16.R3", unit, f"looked-up index not in closed form: {show(key)[:60]}")
+            else:
+                chk.violation("C16.R3", "CMDDriver::run", "position-of-other-instruction",
+                              f"a message looks up the source position of {show(key)}, not of the instruction being executed ({show(key_is)})", where)
+        else:
+            chk.ok("C16.R3", unit, "position = source_map[idx], passed unmodified")
+
+    file_ = drv["span"].rsplit(":", 2)[0]
+    for bi, t in M.calls_in(drv):
+        if bi not in entry:
+            continue
+        d = t[1].get("def") or ""
+        where = f"{file_}:{drv['blocks'][bi]['term']['line']}"
+        if d.endswith("get_err_pos") and len(t[2]) >= 2:
+            judge(f"get_err_pos@bb{bi}", F.call_args(entry[bi], bi)[1], L.cur, where)
+            continue
+        g = P.fns.get(t[1].get("id")) if t[1].get("local") else None
+        if g is None or not g["name"].startswith("driver::driver::"):
+            continue
+        sites = [(f2, b2, t2) for f2 in local_closure(P, g) for b2, t2 in M.calls_in(f2) if (t2[1].get("def") or "").endswith("get_err_pos")]
+        if not sites:
+            continue
+        # a helper/closure that does the lookup: its own lookup must use one of its parameters, and this call passes idx there
+        args = F.call_args(entry[bi], bi)
+        flat = []
+        for a in args:
+            a = strip(a)
+            flat.extend(a[3] if a[0] == "agg" and a[1] == "tuple" else [a])
+        for f2, b2, t2 in sites:
+            F2 = SymFlow(f2)
+            e2, _, _ = F2.run(0)
+            if b2 not in e2:
+                continue
+            pos = F2.call_args(e2[b2], b2)[1]
+            key, arith, ar = lookup_of(pos)
+            unit = f"{g['name'].split('::')[-1]}@bb{bi}"
+            if key is None or key[0] != "init" or not (1 <= key[1] <= f2["argc"]):
+                chk.undecided_("C16.R3", unit, f"helper's looked-up index is not one of its parameters: {show(key) if key else show(pos)[:60]}")
+                continue
+            if arith:
+                judge(unit, pos, key, where)
+                continue
+            passed = [strip(x) for x in flat]
+            if L.cur in passed:
+                chk.ok("C16.R3", unit, "helper looks up its parameter; called with idx")
+            elif any(has_unknown(x) for x in passed):
+                chk.undecided_("C16.R3", unit, "argument not in closed form")
+            else:
+                chk.violation("C16.R3", "CMDDriver::run", "position-of-other-instruction",
+                              f"the position helper is called with {[show(x) for x in passed if x[0] != 'ref'][:2]}, not with the index of the instruction being executed", where)
